@@ -974,8 +974,8 @@ func shrink(sc Scenario) []Scenario {
 func init() {
 	f := core.Register("C13", gen, run, shrink)
 	f.Real = []string{"gortsplib.Server, ServerStream, ServerSession, ServerConn, Client (root package, all pkg/* and internal/* it uses)", "pion rtp/rtcp/srtp/sdp", "gorilla/websocket", "crypto/tls", "net/http request/response parsing"}
-	f.Simulated = []string{"TCP and UDP sockets, listeners (simnet)", "clock, timers, deadlines (testing/synctest fake clock)", "entropy", "goroutine interleaving at the shutdown-path yield sites (seeded holds up to 200 ms)"}
-	f.Excluded = []string{"UDP-multicast transport (serverMulticastWriter*)", "back-pressure under TLS / WebSocket"}
+	f.Simulated = []string{"TCP and UDP sockets, listeners (simnet)", "clock, timers, deadlines (testing/synctest fake clock)", "entropy", "goroutine interleaving at the shutdown-path yield sites (seeded holds up to 200 ms)", "UDP-multicast group sockets (simnet: join, delivery to every member incl. loop-back)", "in 30% of the runs: simulation-aware locks (verifhook.Mutex / RWMutex, waiters block on channels) and a yield point before every statement of server_udp_listener.go / client_udp_listener.go", "the application: Close calls issued from inside packet callbacks and request callbacks"}
+	f.Excluded = []string{"pkg/multicast's raw-socket platform files (stand-in through the ListenPacket seam in the scratch copy; serverMulticastWriter* and the listeners above it are real; at most one multicast reader per run)", "back-pressure under TLS / WebSocket", "Server.Close called synchronously from inside a handler callback (it waits for the goroutine that runs the callback: API misuse)"}
 	f.Rule = "scenario = 1..4 peers (reader or publisher; udp/tcp/http/ws; plain or TLS+SRTP) each progressing to a seeded protocol step (started, described/announced, set up, playing/recording, paused, resumed) x Client.Close from another goroutine at a seeded instant (or silent disappearance of the peer's node) x Server.Close / ServerStream.Close at seeded instants while a writer keeps writing x peers that stop reading (bounded window + stall) x seeded yield holds on the shutdown paths; non-trivial = at least one Close (or vanish) landed mid-run and a fault or yield fired; distinct = distinct hash of the canonical event log"
 	f.Assumptions = []string{
 		"bounded time for Close = ReadTimeout + WriteTimeout (ReadTimeout + 2 x WriteTimeout in scenarios with a peer that stops reading or vanishes: a write that is already blocked and the response / TEARDOWN written next run into their deadlines one after the other) + the simulator's own injected-delay budget (yield holds assigned during the call, 8 x max latency, 2 s)",
